@@ -305,11 +305,21 @@ def check_unique_neighborhoods(R, prog, P):
 
 
 def cli_roles(R, prog, P, members, floor):
-    """CLI/ARG-ROLE: the command line helper hands each option to the generator parameter of the same meaning (rule of C17,
-    restricted to the generators of this property)"""
+    """CLI/*: the command line helpers of this property's generators hand each option to the parameter of the same meaning, test
+    optional graph arguments with `is None`, and default the short forms to the plain family (rules of C17, restricted to the helpers
+    that call the generators of this property)"""
     from . import c17
+    import re
     names = {q for _, q in members}
     helpers = c17.collect_helpers(prog)
-    import re
+    mine = []
+    for h in helpers:
+        ci, setup, build = h
+        called = {c.func.id for c in walk_shallow(build.node) if isinstance(c, ast.Call) and isinstance(c.func, ast.Name)}
+        if called & names:
+            mine.append(h)
     pat = re.compile(r": (%s)\(" % "|".join(sorted(names)))
     borrow(R, P, "CLI", prog, c17.check_arg_role, helpers, floor=floor, only=lambda t: bool(pat.search(t)))
+    hn = tuple(h[0].name for h in mine)
+    borrow(R, P, "CLI", prog, c17.check_optional_object, helpers, floor=0, only=lambda t: t.startswith(hn))
+    borrow(R, P, "CLI", prog, c17.check_action_defaults, helpers, floor=0, only=lambda t: t.startswith(hn))
